@@ -139,15 +139,28 @@ def run_images(ctx, nprog, per_program):
         ops, sigs, has_omit = crashlib.writer_program(rng, ctx.tier)
         programs.append(ops)
         metas.append(dict(sigs=sigs, has_omit=has_omit))
+    # regression corpus (committed; never written at run time): programs with the crash points that once failed; run first
+    forced = {}
+    corpus_path = os.path.join(vlib.VERIF, "corpus", "C03.json")
+    if os.path.exists(corpus_path):
+        import json as _json
+        for e in reversed(_json.load(open(corpus_path))):
+            programs.insert(0, e["ops"])
+            metas.insert(0, dict(sigs={int(k): v for k, v in e["sigs"].items()}, has_omit=e["has_omit"], corpus=e.get("id")))
+        for i, m in enumerate(metas):
+            if m.get("corpus"):
+                e = [x for x in _json.load(open(corpus_path)) if x.get("id") == m["corpus"]][0]
+                forced[i] = [tuple(pt) for pt in e["points"]]
     probes = crashlib.probe(ctx, programs)
     cases = []
-    for ops, meta, pr in zip(programs, metas, probes):
+    for pi, (ops, meta, pr) in enumerate(zip(programs, metas, probes)):
         if not pr["ok"]:
             continue
         marks = pr["marks"]          # marks[i] = log length after op i (ops incl. wopen at 0); last = after wclose
         last_def = max([i for i, o in enumerate(ops) if o.split()[0] in ("src", "sig")] + [0])
         defs_k = marks[last_def] if last_def < len(marks) else 0
-        for (k, j, kind) in crashlib.crash_points(rng, pr["entries"], ctx.tier, per_program, pr.get("tails")):
+        points = forced[pi] if pi in forced else crashlib.crash_points(rng, pr["entries"], ctx.tier, per_program, pr.get("tails"), pr.get("firsts"))
+        for (k, j, kind) in points:
             submitted = {}
             for i, o in enumerate(ops):
                 if o.startswith("fsr ") and i < len(marks) and marks[i] <= k:
@@ -208,7 +221,7 @@ def run(ctx):
     ctx.extra["statistics_requests_compared"] = STATS_COMPARED[0]
     ctx.cov["rule"] = ("case = (writer program, crash point): programs with 1-3 FSR signals of any type, annotations, UTC, user data, omission; the backend write log is "
                        "captured by interposition; crash points = every k (complete writes) with j=0, every byte prefix j of in-place writes (header links, head tables), "
-                       "j in {1,8,28,31,len/2,len-1} of appends, sampled to %d per program; the image is opened twice with the library; oracle: terminates without fault; "
+                       "j in {1,8,28,31,len/2,len-1} of appends, sampled to %d per program (first: clean stops around the first chunk of each kind on a track, then stops inside INDEX/SUMMARY pairs and before in-place writes, then PRNG); the image is opened twice with the library; oracle: terminates without fault; "
                        "if opened: per signal length <= submitted and samples = submitted prefix (hash vs extracted Spec), annotations/UTC/user data returned are a "
                        "subsequence of the written ones; at j=0 with all definitions on disk the open succeeds and loses at most buffered samples + one block; "
                        "distinct = (program, k, j); non-trivial = 0 < k < log length" % per)
